@@ -12,6 +12,9 @@ pub mod tirj;
 pub mod ctx;
 pub mod staging;
 pub mod wire;
+pub mod select;
+pub mod cbor;
+pub mod ledger;
 
 thread_local! {
     static LAST_PANIC: RefCell<Option<(String, String)>> = RefCell::new(None);
@@ -63,6 +66,7 @@ fn dispatch(case: &Value) -> Value {
         "assets" => assets::run(case),
         "staging" => staging::run(case),
         "wire" => wire::run(case),
+        "select" => select::run(case),
         "ping" => json!({"pong": true}),
         other => json!({"tool_error": format!("unknown cmd {other}")}),
     }
